@@ -841,6 +841,24 @@ class Arr(object):
                             o = self.offs[i * c + j]
                             self.buf[o] = _simpl(_ite(idx == i, _cast_in(vals[j], self.dtype), self.buf[o], self.dtype))
                 return
+            if kind == "slice":
+                rows = list(range(r))[k]
+                if isinstance(v, Arr) and v.ndim == 2:
+                    vv = v.fix_len()
+                    if vv.shape != (len(rows), c):
+                        raise ValueError("could not broadcast input array from shape %s into shape %s" % (vv.shape, (len(rows), c)))
+                    for a_, i_ in enumerate(rows):
+                        for j_ in range(c):
+                            self.buf[self.offs[i_ * c + j_]] = _cast_in(vv.buf[vv.offs[a_ * c + j_]], self.dtype)
+                    return
+                if isinstance(v, (list, tuple)) and v and isinstance(v[0], (list, tuple, Arr)):
+                    self[k] = array(v)
+                    return
+                vals = self._values_for(v, c)
+                for i_ in rows:
+                    for j_ in range(c):
+                        self.buf[self.offs[i_ * c + j_]] = _cast_in(vals[j_], self.dtype)
+                return
             if kind == "tuple" and len(k) == 2:
                 i, j = k
                 if isinstance(i, slice):
